@@ -171,6 +171,20 @@ mod std_part {
                     coherence(&reg, f, q, stats);
                 }
                 out::key(&format!("build|ok|{}", cls), true);
+                // the same attributes through the guest-region wrapper (GuestMemoryRegion methods)
+                let reg = match GuestRegionMmap::new(reg, GuestAddress(0x7000)) {
+                    Ok(g) => {
+                        use vm_memory::GuestMemoryRegion;
+                        if g.is_hugetlbfs() != want_hint || g.file_offset().map(|f| f.start()) != q.file_len.map(|_| q.offset) || g.len() as usize != q.size || g.start_addr() != GuestAddress(0x7000) {
+                            v("guest-region-attributes-differ-from-request", jobj! {"req" => J::dbg(q), "hint" => J::dbg(&g.is_hugetlbfs())});
+                        }
+                        g
+                    }
+                    Err(e) => {
+                        v("guest-region-refused-for-a-valid-mapping", jobj! {"req" => J::dbg(q), "err" => J::dbg(&e)});
+                        return;
+                    }
+                };
                 interpose::arm();
                 drop(reg);
                 let l2 = interpose::disarm();
